@@ -368,7 +368,11 @@ def fixed_families():
 
 SPELL = {"plain": lambda w: str(w), "x7": lambda w: str(7 * w), "padded": lambda w: "%04d" % w, "nano": lambda w: "0.%09d" % w,
          "tenths": lambda w: "%d.%d" % (w // 10, w % 10), "micro": lambda w: "0.%06d" % w, "x1e6": lambda w: str(w * 10 ** 6), "float": lambda w: "%d.0" % w,
-         "x1e20": lambda w: str(w * 10 ** 20), "x1e299": lambda w: str(w * 10 ** 299), "x1e16.0": lambda w: str(w * 10 ** 16) + ".0", "1e-10": lambda w: "0.%010d" % w, "1e-15": lambda w: "0.%015d" % w}
+         "x1e20": lambda w: str(w * 10 ** 20), "x1e299": lambda w: str(w * 10 ** 299), "x1e16.0": lambda w: str(w * 10 ** 16) + ".0", "1e-10": lambda w: "0.%010d" % w, "1e-15": lambda w: "0.%015d" % w,
+         # literals of 35 to 90 characters: many leading / trailing zeros around the digits that matter
+         "1e-31": lambda w: "0." + "0" * 27 + "%04d" % w, "1e-60": lambda w: "0." + "0" * 56 + "%04d" % w, "x1e32.0": lambda w: str(w * 10 ** 32) + ".0",
+         "long-tail": lambda w: "%d.%s" % (w, "0" * 60), "long-head": lambda w: "0" * 45 + "%d.0" % w,
+         "x1e40-int": lambda w: str(w * 10 ** 40), "nano-long-tail": lambda w: "0.%09d" % w + "0" * 50}
 
 
 def spelling_cases():
